@@ -142,6 +142,10 @@ class HTTPStream:
                 await self.send(StreamClosed(stream_id=self.stream_id))
         else:
             if message["type"] == "http.response.start" and self.state == ASGIHTTPState.REQUEST:
+                if not 200 <= int(message["status"]) <= 999:
+                    # Not a response that a body can follow, an informational
+                    # response is sent with an early hint message.
+                    raise ValueError(f"{message['status']} is not a final response status")
                 self.response = message
                 headers = build_and_validate_headers(self.response.get("headers", []))
                 await self.send(
@@ -161,6 +165,8 @@ class HTTPStream:
                     raise TypeError(f"{message['path']} should be a str")
                 if any(char in message["path"] for char in ("\r", "\n", "\x00")):
                     raise ValueError("The push path must not contain CR, LF or NUL")
+                if not message["path"].isascii():
+                    raise ValueError("The push path must be ASCII (percent encoded)")
                 headers = [(b":scheme", self.scope["scheme"].encode())]
                 for name, value in self.scope["headers"]:
                     if name == b"host":
@@ -191,6 +197,9 @@ class HTTPStream:
                     )
                 )
             elif message["type"] == "http.response.body" and self.state == ASGIHTTPState.RESPONSE:
+                if not isinstance(message.get("body", b""), (bytes, bytearray, memoryview)):
+                    # Note bytes(5) is five NUL bytes, not an error
+                    raise TypeError("The body must be bytes")
                 if (
                     not suppress_body(self.scope["method"], int(self.response["status"]))
                     and message.get("body", b"") != b""
